@@ -38,6 +38,8 @@ def line_of(op):
         return o
     if o == "debug":
         return "debug %s" % op.get("v", "list-dbs")
+    if o == "replicate":
+        return "replicate %s %s %d %s" % (op.get("d", "d"), op["k"], op.get("ver", -1), op["v"])
     if o == "resolve":
         return "resolve %d %s %s %d %s" % (op.get("opid", 77), op["d"], op["k"], op["ver"], op["v"])
     if "line" in op:
